@@ -310,12 +310,18 @@ def run(ctx):
     g = ctx.anchor(TR + "challenge")
     if g:
         ts = ret_terms(P, g)
-        th = [s for t in ts for s in subterms(t) if s[0] == "mut" and is_call(s[1], name="tagged_hash")]
-        good = len(th) == 1 and th[0][1][2][0] == ("const", "&str", '"BIP0340/challenge"') and len(th[0][2]) == 1
+        from ..hashes import find_digest, digest_nf
+        chain, nf = find_digest(P, unwrap_newtypes(ts[0])) if len(ts) == 1 else (None, None)
+        if nf is None and len(ts) == 1:
+            for s_ in subterms(ts[0]):
+                if is_call(s_) and digest_nf(P, s_) is not None:
+                    nf = digest_nf(P, s_)
+                    break
+        tagd = lambda p_: (lambda d: d is not None and d["algo"] == "sha2::Sha256" and len(d["parts"]) == 1 and
+                           is_call(d["parts"][0], name="as_bytes") and d["parts"][0][2][0] == ("const", "&str", '"BIP0340/challenge"'))(digest_nf(P, p_))
+        good = nf is not None and nf["algo"] == "sha2::Sha256" and len(nf["parts"]) == 5 and tagd(nf["parts"][0]) and tagd(nf["parts"][1])
         if good:
-            parts = flatten(th[0][2][0][2][0])
-            xo = lambda inner: (lambda x: is_call(x, name="x") and is_call(x[2][0], name="to_affine") and inner(x[2][0][2][0]))
-            good = len(parts) == 3 and xo(lambda e: e == ("arg", 1))(parts[0]) and xo(lambda e: strip_newtype_fields(e) == ("arg", 2))(parts[1]) and parts[2] == ("arg", 3)
+            parts = nf["parts"][2:]
         ctx.check(good, "SEQ", g.key, "tagged(x(R)||x(P)||msg)", "BIP-340: e = tagged_hash(\"BIP0340/challenge\", bytes(R) || bytes(P) || m) over x-only coordinates", g.loc)
     g = ctx.anchor(TRC + "tweak")
     if g:
